@@ -9,6 +9,7 @@ from hypothesis import strategies as st
 
 from .. import procs, specs, strategies
 from ..common import Run, ShardResult, run_shards, scratch, spec_hash, verif_seed
+from ..common import thorough  # noqa: E402
 from ..hyp import Outcome, drive
 
 PROP = "C12"
@@ -176,7 +177,7 @@ def shard(shard, nshards, n, nvariants, seed):
 
 def run(tier: str) -> int:
     run_ = Run(PROP, tier, "exploration", RULE)
-    n, nv = (3, 4) if tier == "quick" else (20, 10)
+    n, nv = (3, 4) if tier == "quick" else (thorough(10), 8)
     for part in run_shards(shard, 16, n=n, nvariants=nv, seed=verif_seed()):
         run_.merge(part)
     run_.assumptions = [
